@@ -43,7 +43,7 @@ func checkC17(c *Check, p *Program) {
 		rootsSeen := map[string]bool{}
 		for _, op := range sends {
 			c.Analysed("send sites", FuncName(op.Fn))
-			roots := cg.rootsOf(op.Fn)
+			roots := cg.rootsOfOp(op)
 			for _, r := range roots {
 				key := fmt.Sprintf("%s in %s", FuncName(op.Fn), rootDesc(r))
 				pos := p.InstrPos(op.Instr)
